@@ -164,3 +164,525 @@ def real_pauto(req):
 
 
 OPS.update({'render': real_render, 'pvisit': real_pvisit, 'ptruth': real_ptruth, 'pauto': real_pauto})
+
+
+# ----------------------------------------------------------------------------- runtime-only: execution, declaration, variants
+import itertools, random, traceback  # noqa: E402
+from . import oracles as _orc  # noqa: E402
+
+
+def _fwd_lines(p, src_lines):
+    """line number (1-based, within the module source) -> fwd statement, for top-level/nested fwd statements"""
+    text = '\n'.join(src_lines) + '\n'
+    tree = ast.parse(text)
+    fw = [n for n in ast.walk(tree) if isinstance(n, ast.FunctionDef) and n.name == 'wrapper'][0]
+    calls = []
+
+    class V(ast.NodeVisitor):
+        def visit_Call(self, node):
+            calls.append(node)
+            self.generic_visit(node)
+    V().visit(fw)
+    calls.sort(key=lambda c: (c.lineno, c.col_offset))
+    stmts = list(_stmts_in_order(p['body']))
+    out = {}
+    ci = 0
+    for s in stmts:
+        if s[0] in ('fwd', 'mutate', 'hand', 'decoy'):
+            if ci < len(calls):
+                out[calls[ci].lineno] = s
+                ci += 1
+    return out
+
+
+def _stmts_in_order(stmts):
+    for s in stmts:
+        if s[0] in ('block', 'nested'):
+            for t in _stmts_in_order(s[1]):
+                yield t
+        else:
+            yield s
+
+
+def rt_progexec(req):
+    """C05: every non-colliding call accepted by sigtools.signature(wrapper) runs without an argument-binding
+    TypeError raised by the wrapper or by a callee it forwards to — or the reported signature is the plain one"""
+    _, p = req
+    src = progs.module_source(p, execute=True)
+    mod, fname = load_prog(p)
+    problems = []
+    try:
+        with warnings.catch_warnings():
+            warnings.simplefilter('ignore')
+            R = core.run_real(sigtools.signature, mod.target)
+            plain = core.run_real(signatures.signature, mod.target)
+        if R[0] != 'ok':
+            return ('ok', ('retrieval-raised: sigtools.signature raised %s for\n%s' % (R[1], src),), 'raised')
+        if R[1] == plain[1]:
+            return ('ok', (), 'plain')
+        Rp = _orc.P_of(R[1])
+        truth = {id(s): (ua, uk, ha, hk) for (s, ua, uk, ha, hk) in progs.py_truth(p)}
+        lines = _fwd_lines(p, src.split('\n'))
+        ins = [[(x, 'pk', None) for x in p['params'] if x not in ('self', 'cb')] + [(p['va'], 'vp', None), (p['vk'], 'vk', None)]]
+        ins += [[(q[0], q[1], q[2]) for q in sg] for sg in p['callees']]
+        ran = 0
+        for n, K in _orc.shapes_for(ins + [Rp], foreign=('zz',), maxk=3):
+            if not _orc.non_colliding(Rp, ins, K) or not _orc.acc(Rp, n, K):
+                continue
+            ran += 1
+            mod.REC.clear()
+            try:
+                mod.target(*([0] * n), **{k: 0 for k in K})
+            except TypeError as e:
+                # attribute the error to a statement of the wrapper
+                tb = e.__traceback__
+                stmt = None
+                inwrapper = False
+                while tb is not None:
+                    if tb.tb_frame.f_code.co_name == 'wrapper' and tb.tb_frame.f_code.co_filename == fname:
+                        inwrapper = True
+                        stmt = lines.get(tb.tb_lineno)
+                    tb = tb.tb_next
+                if inwrapper and stmt is not None and stmt[0] == 'fwd':
+                    fl = truth.get(id(stmt))
+                    if fl is None or fl[2] or fl[3]:
+                        continue       # the call forwards nothing pristine, or part of it is hidden: outside the claim
+                elif inwrapper and stmt is not None:
+                    continue
+                if 'multiple values for argument' in str(e) or 'multiple values for keyword argument' in str(e):
+                    # a name that one forwarding call binds positionally (written positionals shift the callee's
+                    # parameters) is advertised as keyword-passable through another: the merge of role-inconsistent
+                    # forwarded signatures is only sound for pure calls (C01)
+                    problems.append('role-inconsistent-forwarding: sigtools.signature reports %s which accepts (%d,%s), but running it raises TypeError: %s\n%s' % (
+                        core.fmt_params(Rp), n, K, e, src))
+                    continue
+                problems.append('unsound: sigtools.signature reports %s which accepts (%d,%s), but running it raises TypeError: %s\n%s' % (
+                    core.fmt_params(Rp), n, K, e, src))
+                break
+            except Exception:  # noqa  — NameError after `del kwargs` etc. is not an argument-binding error
+                pass
+        return ('ok', tuple(problems[:1] + [q for q in problems[1:] if not q.startswith('role-inc')][:1]), 'executed:%d' % ran)
+    finally:
+        progs.unload(fname)
+
+
+def rt_declared(req):
+    """C06: discovery from source == the explicit declaration (public algebra over the generator's ground truth)"""
+    _, p = req
+    src = progs.module_source(p, execute=True)
+    mod, fname = load_prog(p)
+    problems = []
+    try:
+        with warnings.catch_warnings():
+            warnings.simplefilter('ignore')
+            target = mod.target
+            got = core.run_real(sigtools.signature, target)
+            wf = mod.C.__dict__['wrapper'] if p['route'] == 'self' else (mod.target.func if p['route'] == 'param' else mod.target)
+            inst = target.__self__ if p['route'] == 'self' else None
+            sigs = []
+            plain = False
+            try:
+                for (s, ua, uk, ha, hk) in progs.py_truth(p):
+                    k = s[7]
+                    if p['route'] == 'self':
+                        callee = getattr(inst, 'm%d' % k)
+                    elif p['route'] == 'param':
+                        callee = getattr(mod, 'g0')
+                    else:
+                        callee = getattr(mod, 'g%d' % k)
+                    csig = specifiers.signature(callee)
+                    if any(q.kind in (q.VAR_POSITIONAL, q.VAR_KEYWORD) for q in csig.parameters.values()):
+                        signatures.signature(callee).bind_partial(*([1] * s[2]), **{x: 1 for x in s[3]})
+                    outer = signatures.signature(wf)
+                    sigs.append(signatures.forwards(outer, csig, s[2], *s[3], use_varargs=ua, use_varkwargs=uk,
+                                                    hide_args=ha, hide_kwargs=hk))
+                if not sigs:
+                    plain = True
+                else:
+                    want_sig = signatures.merge(*sigs)
+            except (ValueError, TypeError):
+                plain = True
+            if plain:
+                want = core.run_real(signatures.signature, target)
+            else:
+                if p['route'] == 'self':
+                    want_sig = signatures.mask(want_sig, 1)
+                elif p['route'] == 'param':
+                    want_sig = None
+                want = core.canon_sig(want_sig) if want_sig is not None else None
+        if want is not None and got != want:
+            problems.append('discovery-differs-from-declaration: discovered %s, declared %s for\n%s' % (got[:4], want[:4], src))
+        return ('ok', tuple(problems), 'plain' if plain else 'declared')
+    finally:
+        progs.unload(fname)
+
+
+def _variant_lines(lines, rng):
+    """semantically irrelevant variation of the wrapper source: statement context of the forwarding calls,
+    unrelated statements, local names, decoy calls, a decorator that only wraps"""
+    out = []
+    for l in lines:
+        st = l.strip()
+        ind = l[:len(l) - len(l.lstrip())]
+        is_call = ('(' in st and not st.startswith(('def ', 'if ', 'del ', 'nonlocal ', '@')))
+        if is_call and ('*args' in st or '**kwargs' in st):
+            kind = rng.choice(['same', 'try', 'with', 'if', 'assign', 'comp', 'tuple', 'cond', 'assert'])
+            expr = st.split(' = ', 1)[1] if (' = ' in st and not st.split(' = ')[0].count('(')) else st
+            if kind == 'try':
+                out += [ind + 'try:', ind + '    ' + st, ind + 'finally:', ind + '    pass']
+            elif kind == 'with':
+                out += [ind + 'with _ctx():', ind + '    ' + st]
+            elif kind == 'if':
+                out += [ind + 'if _true():', ind + '    ' + st, ind + 'else:', ind + '    pass']
+            elif kind == 'assign':
+                out += [ind + 'loc_%d = %s' % (rng.randint(0, 9), expr)]
+            elif kind == 'comp':
+                out += [ind + '[%s for _i in (1,)]' % expr]
+            elif kind == 'tuple':
+                out += [ind + '(1, %s, 2)' % expr]
+            elif kind == 'cond':
+                out += [ind + '%s if _true() else None' % expr]
+            elif kind == 'assert':
+                out += [ind + 'assert (%s) is None' % expr]
+            else:
+                out.append(l)
+        else:
+            out.append(l)
+        if rng.random() < 0.3 and st and not st.endswith(':') and not st.startswith(('@', 'nonlocal')):
+            out.append(ind + rng.choice(['unrelated_%d = 1', 'h1(%d)', 'h1(unrel=%d)', 'pass  # %d']) % rng.randint(0, 9))
+    return out
+
+
+def rt_variants(req):
+    """C06: the outcome is unchanged by semantically irrelevant variation of the source"""
+    _, p, seed = req
+    rng = random.Random(seed)
+    base_src = progs.module_source(p, execute=True)
+    mod, fname = load_prog(p)
+    problems = []
+    try:
+        with warnings.catch_warnings():
+            warnings.simplefilter('ignore')
+            base = core.run_real(sigtools.signature, mod.target)
+    finally:
+        progs.unload(fname)
+    for v in range(3):
+        lines = base_src.split('\n')
+        # vary only the wrapper's lines
+        start = next(i for i, l in enumerate(lines) if l.lstrip().startswith('def wrapper('))
+        ind0 = len(lines[start]) - len(lines[start].lstrip())
+        end = start + 1
+        while end < len(lines) and (not lines[end].strip() or len(lines[end]) - len(lines[end].lstrip()) > ind0):
+            end += 1
+        body = _variant_lines(lines[start + 1:end], rng)
+        deco = [' ' * ind0 + '@_ident'] if rng.random() < 0.5 else []
+        helpers = ['import contextlib', 'def _true():', '    return True', '@contextlib.contextmanager', 'def _ctx():',
+                   '    yield', 'def _ident(f):', '    return f', '']
+        src = '\n'.join(helpers + lines[:start] + deco + [lines[start]] + body + lines[end:])
+        try:
+            vmod, vfname = progs.load_module(src)
+        except SyntaxError as e:
+            problems.append('harness-variant-syntax: %s\n%s' % (e, src))
+            continue
+        try:
+            w = vmod.C.__dict__['wrapper'] if p['route'] == 'self' else (vmod.target.func if p['route'] == 'param' else vmod.target)
+            core.register_callable(w, 1)
+            for k in range(len(p['callees'])):
+                core.register_callable(getattr(vmod, 'g%d' % k), 10 + k)
+                if p['route'] == 'self':
+                    core.register_callable(vmod.C.__dict__['m%d' % k], 10 + k)
+            if p['route'] == 'param':
+                core.register_callable(vmod.target, 2)
+            with warnings.catch_warnings():
+                warnings.simplefilter('ignore')
+                got = core.run_real(sigtools.signature, vmod.target)
+            if got != base:
+                problems.append('variant-changes-outcome: base %s, variant %s\n--- base\n%s\n--- variant\n%s' % (
+                    base[:3], got[:3], base_src, src))
+        finally:
+            progs.unload(vfname)
+    return ('ok', tuple(problems[:2]))
+
+
+RT.update({'progexec': rt_progexec, 'declared': rt_declared, 'variants': rt_variants})
+
+
+_D19_SRC = '''
+def g(x, y=1):
+    return x, y
+def h(d):
+    d.clear()
+def wrapper_mutate(*args, **kwargs):
+    def sub():
+        kwargs.pop('x')
+    sub()
+    return g(*args, **kwargs)
+def wrapper_handover(*args, **kwargs):
+    def sub():
+        h(kwargs)
+    sub()
+    return g(*args, **kwargs)
+'''
+
+
+def rt_nested_taint(req):
+    """deterministic probe (finding D19): **kwargs mutated / handed over inside a nested function that runs
+    before the forwarding call"""
+    mod, fname = progs.load_module(_D19_SRC)
+    problems = []
+    try:
+        for name in ('wrapper_mutate', 'wrapper_handover'):
+            w = getattr(mod, name)
+            with warnings.catch_warnings():
+                warnings.simplefilter('ignore')
+                sig = sigtools.signature(w)
+                plain = signatures.signature(w)
+            if str(sig) == str(plain):
+                continue
+            try:
+                sig.bind(x=1)
+            except TypeError:
+                continue
+            try:
+                w(x=1)
+            except TypeError as e:
+                problems.append('nested-scope-taint-missed: %s is reported as %s, which accepts x=1, but running it raises TypeError: %s '
+                                '(kwargs is mutated / handed over inside a nested function called before the forwarding call)' % (name, sig, e))
+    finally:
+        progs.unload(fname)
+    return ('ok', tuple(problems[:1]))
+
+
+RT['nested_taint'] = rt_nested_taint
+
+
+# ----------------------------------------------------------------------------- C07: retrieval over the corpus
+import signal  # noqa: E402
+
+
+class _Timeout(BaseException):
+    pass
+
+
+def _alarm(*a):
+    raise _Timeout()
+
+
+def _outcome(fn, obj):
+    try:
+        with warnings.catch_warnings():
+            warnings.simplefilter('ignore')
+            r = fn(obj)
+    except _Timeout:
+        raise
+    except BaseException as e:  # noqa
+        return ('raised', type(e).__name__, None)
+    return ('ok', type(r).__name__, r)
+
+
+def _has_forger(obj):
+    for a in ('_sigtools__forger', '__signature__', '__wrapped__', '_sigtools__autoforwards_hint'):
+        try:
+            object.__getattribute__(obj, a)
+            return True
+        except Exception:  # noqa
+            pass
+        try:
+            if hasattr(obj, a):
+                return True
+        except Exception:  # noqa
+            return True
+    return False
+
+
+def _params3(sig):
+    return [(p.name, core.KIND_NAME[p.kind], None if p.default is p.empty else 1) for p in sig.parameters.values()]
+
+
+def rt_retrieve(req):
+    """C07 on one corpus callable: total (same outcome class as inspect.signature), upgraded result, narrowing"""
+    _, kind, idx = req
+    funcs, others = corpus.callables()
+    obj = (funcs if kind == 'f' else others)[idx]
+    problems = []
+    old = signal.signal(signal.SIGALRM, _alarm)
+    signal.alarm(20)
+    try:
+        insp = _outcome(inspect.signature, obj)
+        outs = {'sigtools.signature': _outcome(sigtools.signature, obj),
+                'signature(auto=False)': _outcome(lambda o: specifiers.signature(o, auto=False), obj),
+                'signatures.signature': _outcome(signatures.signature, obj)}
+        for name, o in outs.items():
+            if insp[0] == 'ok':
+                if o[0] != 'ok':
+                    problems.append('retrieval-raises: %s(%s) raised %s although inspect.signature succeeds' % (name, corpus.qual(obj), o[1]))
+                elif o[1] != 'UpgradedSignature':
+                    problems.append('not-upgraded: %s(%s) returned a %s' % (name, corpus.qual(obj), o[1]))
+            else:
+                if o[0] == 'ok':
+                    pass      # more capable than inspect: fine
+                elif o[1] != insp[1] and not (o[1] == 'ValueError' and _has_forger(obj)):
+                    problems.append('different-exception: %s(%s) raised %s, inspect.signature raised %s' % (name, corpus.qual(obj), o[1], insp[1]))
+        status = 'inspect-raises' if insp[0] != 'ok' else 'ok'
+        # narrowing for plain functions
+        o = outs['sigtools.signature']
+        if insp[0] == 'ok' and o[0] == 'ok' and kind == 'f' and not _has_forger(obj):
+            try:
+                own = _params3(insp[2])
+                R = _params3(o[2])
+            except Exception:  # noqa
+                own = R = None
+            if own is not None and R != own and len(own) <= 7 and len(R) <= 7:
+                status = 'narrowed'
+                for n, K in _orc.shapes_for([own, R], foreign=('zz_',), maxk=3):
+                    if _orc.non_colliding(R, [own], K) and _orc.acc(R, n, K) and not _orc.acc(own, n, K):
+                        problems.append('widens: sigtools.signature(%s) = %s accepts (%d,%s) but the def parameter list %s does not' % (
+                            corpus.qual(obj), core.fmt_params(R), n, K, core.fmt_params(own)))
+                        break
+    except _Timeout:
+        status = 'timeout'
+    finally:
+        signal.alarm(0)
+        signal.signal(signal.SIGALRM, old)
+    return ('ok', tuple(problems[:2]), status)
+
+
+def rt_sphinx(req):
+    """C07: the Sphinx autodoc hook returns two strings and never raises for a documentable object"""
+    from sigtools import sphinxext
+    _, idx = req
+    f = corpus.callables()[0][idx]
+    name = '%s.%s' % (f.__module__, f.__qualname__)
+    problems = []
+    # only objects Sphinx could document under that name: the dotted name must resolve
+    try:
+        import importlib
+        o = importlib.import_module(f.__module__)
+        for part in f.__qualname__.split('.'):
+            o = getattr(o, part)
+    except Exception:  # noqa
+        return ('ok', (), 'undocumentable')
+    old = signal.signal(signal.SIGALRM, _alarm)
+    signal.alarm(20)
+    try:
+        try:
+            with warnings.catch_warnings():
+                warnings.simplefilter('ignore')
+                r = sphinxext.process_signature(None, 'function', name, f, None, '(PASSED)', 'RET')
+        except _Timeout:
+            return ('ok', (), 'timeout')
+        except BaseException as e:  # noqa
+            problems.append('sphinx-hook-raises: process_signature(%s) raised %s: %s' % (name, type(e).__name__, str(e)[:100]))
+            return ('ok', tuple(problems), 'raised')
+        if not (isinstance(r, tuple) and len(r) == 2 and all(isinstance(x, str) for x in r)):
+            problems.append('sphinx-hook-result: process_signature(%s) returned %r' % (name, r))
+    finally:
+        signal.alarm(0)
+        signal.signal(signal.SIGALRM, old)
+    return ('ok', tuple(problems), 'passed-through' if r[0] == '(PASSED)' else 'computed')
+
+
+ADV_OBJECT_SOURCES = '''
+import functools, sigtools
+from sigtools import specifiers, modifiers, wrappers
+def g(a, b=1, *, c=2): return a
+lam = lambda *a, **k: g(*a, **k)
+lam2 = (lambda x, *a, **k:
+        g(*a, **k))
+async def coro(*args, **kwargs): return await g(*args, **kwargs)
+def gen(*args, **kwargs): yield g(*args, **kwargs)
+async def agen(*args, **kwargs): yield g(*args, **kwargs)
+def walrus(*args, **kwargs):
+    if (n := len(args)): pass
+    return g(*args, **kwargs)
+def matcher(*args, **kwargs):
+    match args:
+        case [x, *rest]: pass
+        case _: pass
+    return g(*args, **kwargs)
+def comp(*args, **kwargs): return [g(*args, **kwargs) for _ in range(2)]
+def dcomp(*args, **kwargs): return {k: g(*args, **kwargs) for k in kwargs}
+def starred(*args, **kwargs): return g(*args, *args, **kwargs, **kwargs)
+def glob(*args, **kwargs):
+    global g
+    return g(*args, **kwargs)
+def nonl(*args, **kwargs):
+    def sub():
+        nonlocal kwargs
+        kwargs = {}
+    return g(*args, **kwargs)
+class Body:
+    x = [g(1) for _ in range(1)]
+    def m(self, *args, **kwargs): return g(*args, **kwargs)
+    @staticmethod
+    def s(*args, **kwargs):
+        """doc
+with a column-0 line"""
+        return g(*args, **kwargs)
+    @classmethod
+    def c(cls, *args, **kwargs): return g(*args, **kwargs)
+    def __call__(self, *args, **kwargs): return g(*args, **kwargs)
+def two(*args, **kwargs):
+    g(*args, **kwargs)
+    Body.m(*args, **kwargs)
+def incompatible(*args, **kwargs):
+    g(*args, **kwargs)
+    (lambda *, q: 0)(*args, **kwargs)
+def part(*args, **kwargs): return functools.partial(*args, **kwargs)
+def part2(*args, **kwargs): return functools.partial(g, *args, **kwargs)
+def recursive(*args, **kwargs): return recursive(*args, **kwargs)
+def mutual_a(*args, **kwargs): return mutual_b(*args, **kwargs)
+def mutual_b(*args, **kwargs): return mutual_a(*args, **kwargs)
+def unresolved(*args, **kwargs): return missing_name(*args, **kwargs)
+def notcallable(*args, **kwargs): return (3)(*args, **kwargs)
+def builtin(*args, **kwargs): return print(*args, **kwargs)
+def cfunc(*args, **kwargs): return dict(*args, **kwargs)
+def deleted(*args, **kwargs):
+    del kwargs
+    return g(*args)
+def onearg(f, *args, **kwargs): return f(*args, **kwargs)
+def deco(f):
+    @functools.wraps(f)
+    def w(*args, **kwargs): return f(*args, **kwargs)
+    return w
+@deco
+def wrapped(a, b): pass
+@deco
+@deco
+def wrapped2(a, b): pass
+exec_ns = {}
+exec("def nosource(*args, **kwargs): return 1", exec_ns)
+nosource = exec_ns["nosource"]
+OBJECTS = [lam, lam2, coro, gen, agen, walrus, matcher, comp, dcomp, starred, glob, nonl, Body, Body(), Body.m, Body().m, Body.s,
+           Body.c, two, incompatible, part, part2, recursive, mutual_a, unresolved, notcallable, builtin, cfunc, deleted, onearg,
+           functools.partial(onearg, g), functools.partial(onearg, 3), wrapped, wrapped2, nosource, functools.partial(g, 1, c=3),
+           print, len, dict, int, object, type, functools.partial(print), str.join, [].append, Body.__init__, Body().__init__,
+           specifiers.forwards_to_function, modifiers.kwoargs, wrappers.decorator, sigtools.signature]
+'''
+
+
+def rt_adversarial(req):
+    """C07 on generated adversarial sources"""
+    mod, fname = progs.load_module(ADV_OBJECT_SOURCES)
+    problems = []
+    n = 0
+    try:
+        for obj in mod.OBJECTS:
+            n += 1
+            insp = _outcome(inspect.signature, obj)
+            for name, fn in (('sigtools.signature', sigtools.signature),
+                             ('signature(auto=False)', lambda o: specifiers.signature(o, auto=False)),
+                             ('signatures.signature', signatures.signature)):
+                o = _outcome(fn, obj)
+                if insp[0] == 'ok' and o[0] != 'ok':
+                    problems.append('retrieval-raises: %s(%r) raised %s although inspect.signature succeeds' % (name, obj, o[1]))
+                elif insp[0] == 'ok' and o[1] != 'UpgradedSignature':
+                    problems.append('not-upgraded: %s(%r) returned a %s' % (name, obj, o[1]))
+                elif insp[0] != 'ok' and o[0] != 'ok' and o[1] != insp[1]:
+                    problems.append('different-exception: %s(%r) raised %s, inspect.signature raised %s' % (name, obj, o[1], insp[1]))
+    finally:
+        progs.unload(fname)
+    return ('ok', tuple(problems[:3]), 'objects:%d' % n)
+
+
+RT.update({'retrieve': rt_retrieve, 'sphinx': rt_sphinx, 'adversarial': rt_adversarial})
